@@ -132,6 +132,8 @@ static Input gen_input() {
         } else if (shape == 4) { // more log records than the connection's message list starts with
             int n = rcx::range(9, 40); rq = "GET /log HTTP/1.1\r\nHost: h.example\r\n"; for (int i = 0; i < n; i++) rq += (i % 3 == 0 ? "no colon here " : i % 3 == 1 ? ": empty name " : "X-Nul" + std::string(1, '\0') + ": ") + std::to_string(i) + "\r\n"; rq += "\r\n";
             rs = "HTTP/1.1 200 OK\r\n"; for (int i = 0; i < n; i++) rs += "bad line " + std::to_string(i) + "\r\n"; rs += "Content-Length: 0\r\n\r\n"; in.label = "growth_log_list";
+            if (rcx::coin()) { // the record that makes the list grow is an ERROR-level one (it becomes the connection's "last error"): 5..18 warnings, then an invalid chunk length
+                n = rcx::range(5, 18); rq = "GET /log HTTP/1.1\r\nHost: h.example\r\n\r\n"; rs = "HTTP/1.1 200 OK\r\n"; for (int i = 0; i < n; i++) rs += "bad line " + std::to_string(i) + "\r\n"; rs += "Transfer-Encoding: chunked\r\n\r\nZZ\r\nrest of the body\r\n"; in.label = "growth_log_list_error_record"; }
         } else { // one urlencoded field / one multipart line / one header line delivered in many pieces (builder lists, line buffers)
             std::string v((size_t)rcx::range(40, 200), 'v'); std::string body = "name=" + v + "&k2=" + v;
             rq = "POST /pieces HTTP/1.1\r\nHost: h.example\r\nX-Long: " + v + "\r\n folded " + v + "\r\nContent-Type: application/x-www-form-urlencoded\r\nContent-Length: " + std::to_string(body.size()) + "\r\n\r\n" + body;
